@@ -703,6 +703,8 @@ var c04directed = []struct{ src, want string }{
 	{`{{ !!i7 }}|{{ not not i7 }}|{{ !(!i7) }}|{{ "v=" + !!i7 }}|{{ (!!i7) == true }}|{{ !!"" }}|{{ !!"s" }}|{{ !!!i7 }}|{{ !!(i7 - 7) }}|{{ !!1.5 }}`, "true|true|true|v=true|true|false|true|false|false|true"},
 	// integral literals beyond the int64 range are floating-point operands like every other literal
 	{`{{ i7 < 9223372036854775808 }}|{{ i7 * 9223372036854775808 == i7 * 9223372036854775808.0 }}|{{ 18446744073709551615 + 18446744073709551615 == 18446744073709551615.0 + 18446744073709551615.0 }}|{{ 9223372036854775808 > i2 }}|{{ i2 - 9223372036854775808 < 0 }}|{{ 0xFFFFFFFFFFFFFFFF > i7 }}`, "true|true|true|true|true|true"},
+	// an unsigned Go integer on the left is an integer like any other: a floating-point right operand makes the operation floating-point
+	{`{{ u3 * 1.5 }}|{{ u3 / 2.0 }}|{{ u3 * 0.5 }}|{{ u3 / 2 }}|{{ u8 * 2.5 }}|{{ u3 * f15 }}|{{ u64 / 4.0 }}|{{ u3 / u8 }}|{{ u3 * u8 }}`, "4.5|1.5|1.5|1.5|5|4.5|2.5|1|6"},
 }
 
 func c04run(c *fw.Ctx, idx int) {
@@ -715,6 +717,7 @@ func c04run(c *fw.Ctx, idx int) {
 		vars.Set("i1", 5).Set("i7", 7).Set("i2", 2).Set("im7", -7).Set("im2", -2).Set("bt", true).Set("bf", false).Set("si", []int{9, 4})
 		vars.Set("one", 1).Set("big", int64(9007199254740993)).Set("big1", int64(9007199254740994)).Set("nanos", int64(1700000000123456789)).Set("sec", int64(1000000000))
 		vars.Set("fi", func(id string, v int) int { return v })
+		vars.Set("u3", uint(3)).Set("u8", uint8(2)).Set("u64", uint64(10)).Set("f15", 1.5)
 		res := jx.Run(map[string]string{"/t.jet": d.src}, "/t.jet", vars, nil, jx.NoEscape)
 		want := d.want
 		if want == "" {
